@@ -11,10 +11,11 @@ sys.path.insert(0, str(Path(__file__).resolve().parent.parent / 'translate'))
 import lib  # noqa
 import c19_caches  # noqa
 
-SOLID = ('tet', 'hex')
+SOLID = ('tet', 'hex', 'prism')
 SHELL = ('tri', 'quad')
 ALL = SOLID + SHELL
-MIXED = ('mixed',)
+MIXED = ('mixed', 'mixedp')          # hex + tet blocks / hex + prism blocks in one mesh
+ALL_KINDS = ALL + MIXED
 
 # query -> (mesh kinds it is meaningful on, keyword variants)
 CATALOGUE = {
@@ -87,6 +88,7 @@ ARG_VALUES = {
     'update': [(False, True)],
 }
 RUNNABLE_WRITERS = ['write_fistr', 'write_ucd', 'write_obj', 'write_vtk']
+BASELINE = lib.COQ / 'C19' / 'gen_baseline'
 DERIVS = {'to_surface': SOLID, 'to_polyhedron': SOLID, 'to_facets': SOLID, 'to_first_order': ALL,
           'resolve_degeneracy': ('hex',)}
 
@@ -104,20 +106,22 @@ def _label(rng, n, mode):
 
 def gen_mesh(rng, kind, feat=None):
     """raw mesh spec; feat: set of {'unref', 'inverted', 'jitter', 'timeseries', 'derived_names',
-    'partial_nodal'}; kind 'mixed' = a hex block and a tet block in one mesh"""
+    'negative_values', 'partial_nodal'}; kind 'mixed' = a hex block and a tet block in one mesh,
+    'mixedp' = a hex block and a prism block"""
     feat = set(feat or [])
-    if kind == 'mixed':
+    if kind in MIXED:
+        second = 'tet' if kind == 'mixed' else 'prism'
         a = gen_mesh(rng, 'hex', feat - {'derived_names', 'partial_nodal', 'timeseries'})
-        b = gen_mesh(rng, 'tet', [])
+        b = gen_mesh(rng, second, [])
         off_n = max(a['nodes']['ids']) + 7
         off_e = max(a['elements']['hex']['ids']) + 3
         bn = [i + off_n for i in b['nodes']['ids']]
-        m = {'kind': 'mixed', 'features': sorted(feat),
+        m = {'kind': kind, 'features': sorted(feat),
              'nodes': {'ids': a['nodes']['ids'] + bn,
                        'xyz': a['nodes']['xyz'] + [[p[0] + 40, p[1], p[2]] for p in b['nodes']['xyz']]},
              'elements': {'hex': a['elements']['hex'],
-                          'tet': {'ids': [i + off_e for i in b['elements']['tet']['ids']],
-                                  'conn': [[v + off_n for v in c] for c in b['elements']['tet']['conn']]}},
+                          second: {'ids': [i + off_e for i in b['elements'][second]['ids']],
+                                   'conn': [[v + off_n for v in c] for c in b['elements'][second]['conn']]}},
              'nodal': {'u': a['nodal']['u'] + b['nodal']['u']},
              'elemental': {'w': a['elemental']['w'] + b['elemental']['w']}}
         _decorate(rng, m, feat)
@@ -136,6 +140,10 @@ def gen_mesh(rng, kind, feat=None):
                  idx[(i, 0, 1)], idx[(i + 1, 0, 1)], idx[(i + 1, 1, 1)], idx[(i, 1, 1)]]
             if kind == 'hex':
                 cells.append(c)
+            elif kind == 'prism':
+                # two wedges per cell, femio's orientation (positive volume)
+                cells.append([c[0], c[2], c[1], c[4], c[6], c[5]])
+                cells.append([c[0], c[3], c[2], c[4], c[7], c[6]])
             else:
                 # 6 tets around the diagonal c0-c6 (positively oriented)
                 for a, b in ((1, 2), (2, 3), (3, 7), (7, 4), (4, 5), (5, 1)):
@@ -173,6 +181,9 @@ def gen_mesh(rng, kind, feat=None):
     if 'inverted' in feat and kind == 'tet':
         c = cells[rng.randrange(len(cells))]
         c[0], c[1] = c[1], c[0]
+    if 'inverted' in feat and kind == 'prism':
+        c = cells[rng.randrange(len(cells))]
+        c[1], c[2], c[4], c[5] = c[2], c[1], c[5], c[4]
     # integer affine image (shear + translation): keeps orientation
     sh = rng.choice([0, 1])
     tx = rng.choice([0, 3])
@@ -222,9 +233,11 @@ def _decorate(rng, mesh, feat):
     if 'derived_names' in feat:
         # variables the USER stored under names the library also uses for derived data
         mesh['nodal']['normal'] = [[7., 7., 7.] for _ in node_ids]
+        # (signed: a stored signed volume of a mesh with inverted elements has negative entries)
+        sign = (lambda i: -1. if i % 2 else 1.) if 'negative_values' in feat else (lambda i: 1.)
         for nm in ('volume', 'area', 'metric', 'degree', 'normal'):
-            if rng.random() < 0.7 or nm == 'volume':
-                mesh['elemental'][nm] = [[42. + i] * (3 if nm == 'normal' else 1) for i in range(n_el)]
+            if rng.random() < 0.7 or nm in ('volume', 'metric', 'area'):
+                mesh['elemental'][nm] = [[sign(i) * (42. + i)] * (3 if nm == 'normal' else 1) for i in range(n_el)]
     if 'partial_nodal' in feat:
         used = sorted({v for b in mesh['elements'].values() for c in b['conn'] for v in c})
         k = max(1, len(used) // 2)
@@ -248,7 +261,7 @@ def gen_history(rng, cat, modifiers, tier):
     n_obj = rng.choice([1, 1, 2, 3])
     kinds, hist = {}, []
     for o in range(n_obj):
-        kind = rng.choice(['tet', 'tet', 'hex', 'hex', 'tri', 'quad'])
+        kind = rng.choice(['tet', 'tet', 'hex', 'hex', 'tri', 'quad', 'prism'])
         feat = [f for f in ('unref', 'inverted') if rng.random() < 0.5]
         kinds[o] = kind
         hist.append({'op': 'new', 'o': o, 'mesh': gen_mesh(rng, kind, feat)})
@@ -800,18 +813,34 @@ def main(ctx):
     ctx.assumptions += ['user variables do not use the names of derived variables (area, volume, metric, normal, ...)',
                         'a query that is handed a variable name reads that variable (histories name user variables or NODE)',
                         'stl / vtu / vtp writers cannot run here (packages absent): inventory only']
-    tie_ok, cfg = True, None
+    tie_ok, cfg, degraded = True, None, None
     try:
         cfg, consumed = c19_caches.translate(str(lib.REPO))
         ctx.sources = consumed
         lib.write_if_changed(lib.COQ / 'C19' / 'gen' / 'CacheCfg.v', c19_caches.emit(cfg))
     except c19_caches.TranslateError as e:
-        tie_ok = False
+        degraded = str(e)
         ctx.log('translator failed closed:', e)
         ctx.notes['translator_error'] = str(e)
     except SyntaxError as e:
         tie_ok = False
         ctx.notes['translator_error'] = 'syntax error: ' + str(e)
+    if degraded is not None:
+        # T -> H: the translator cannot read the tree under test.  That alone is not a
+        # violation: the inventory last translated from the registered tree (committed,
+        # coq/C19/gen_baseline) becomes the hand model, the theorems are checked against it, and
+        # the history oracle runs widened (thorough-size random histories, pair histories with
+        # sentinels before and after on every mesh kind).  Only a disagreement is reported.
+        try:
+            cfg = json.loads((BASELINE / 'cfg.json').read_text())
+            lib.write_if_changed(lib.COQ / 'C19' / 'gen' / 'CacheCfg.v', c19_caches.emit(cfg))
+            ctx.notes['tie'] = ('H (translator could not read the tree under test: ' + degraded +
+                                '; baseline inventory of the registered tree + widened history oracle)')
+            ctx.trusted.append('DEGRADED TIE: inventory = committed baseline (coq/C19/gen_baseline), not the '
+                               'tree under test; assurance for this run = widened history oracle')
+        except (OSError, ValueError) as e2:
+            tie_ok = False
+            ctx.notes['translator_error'] += ' / no baseline inventory: ' + str(e2)
 
     proof_ok, log = ctx.build_props('C19/Props.v')
     if not proof_ok:
@@ -896,13 +925,37 @@ def main(ctx):
     ctx.notes['probe_pairs'] = len(probes)
     for f, h in wit:
         batch.append(('witness', f, h))
-    for h in pair_histories(ctx, cat, cfgq, ctx.tier):
+    wide = 'thorough' if degraded is not None else ctx.tier
+    for h in pair_histories(ctx, cat, cfgq, wide):
         batch.append(('pairs', None, h))
     # user variables stored under names the library also uses: a query must not overwrite them
+    # (every keyword variant: options such as return_abs_* decide what is done to a stored value;
+    # stored values of both signs; the plain call afterwards must still see the user's values)
     for q in sorted(cat):
-        for kind in (cat[q][0] if ctx.tier == 'thorough' else cat[q][0][:2]):
-            batch.append(('uservar', None, [{'op': 'new', 'o': 0, 'mesh': gen_mesh(ctx.rng, kind, ['derived_names'])},
-                                            q_op(0, q, cat[q][1][0])]))
+        kinds_q = cat[q][0] if ctx.tier == 'thorough' else cat[q][0][:2]
+        for nk, kind in enumerate(kinds_q):
+            for nv, kw in enumerate(cat[q][1]):
+                if nv and ctx.tier != 'thorough' and nk != nv % len(kinds_q):
+                    continue
+                feat = ['derived_names'] + (['negative_values'] if (nv + nk) % 2 == 0 or len(cat[q][1]) > 1 and nv else [])
+                h = [{'op': 'new', 'o': 0, 'mesh': gen_mesh(ctx.rng, kind, feat)}, q_op(0, q, kw)]
+                if nv:
+                    h.append(q_op(0, q, cat[q][1][0]))
+                batch.append(('uservar', None, h))
+    # every runnable writer on every mesh kind (element types have their own code paths in the
+    # writers: node reordering, type dispatch), then orientation-sensitive queries and the same
+    # writer again (a writer must leave the mesh as it was: snapshots + later values + second file)
+    for nk, kind in enumerate(ALL_KINDS):
+        for nw, w in enumerate(RUNNABLE_WRITERS):
+            feat = ['unref'] if (nk + nw) % 2 else []
+            if ctx.tier == 'thorough' and kind not in MIXED:
+                feat.append('timeseries')
+            m = gen_mesh(ctx.rng, kind, feat)
+            qs = [q for q in ('calculate_element_metrics', 'extract_facets', 'calculate_element_normals')
+                  if kind in cat[q][0]]
+            batch.append(('writers', None, [{'op': 'new', 'o': 0, 'mesh': m}, e_op(0, w)]
+                          + [q_op(0, q, dict(cat[q][1][1]) if len(cat[q][1]) > 1 else {}) for q in qs]
+                          + [e_op(0, w)]))
     # a modifier that raises midway (a nodal variable that lacks some node ids) followed by queries
     memo_q = [q for q, c in cfgq.items() if (c['lru'] is not None or c['slot'] is not None) and q in cat]
     for q in sorted(memo_q):
@@ -920,7 +973,7 @@ def main(ctx):
         batch.append(('observation', None, [{'op': 'new', 'o': 0, 'mesh': gen_mesh(ctx.rng, 'tet', [])},
                                             q_op(0, q, {}), e_op(0, 'assign_nodes', {'kind': 'same_array'}),
                                             q_op(0, q, {})]))
-    n_rand = 150 if ctx.tier == 'quick' else 1500
+    n_rand = 150 if wide == 'quick' else 1500
     for _ in range(n_rand):
         batch.append(('random', None, gen_history(ctx.rng, cat, modifiers, ctx.tier)))
     results = []
@@ -1079,6 +1132,8 @@ def main(ctx):
         ctx.violation('proof-broken', {}, 'generated inventory evaluates in Coq', 'it does not',
                       'C19_cfg_ok', found_input=False, signature={'kind': 'cfg-eval-failed'})
     ctx.notes['search_evaluations'] = len(batch)
+    if degraded is not None:
+        ctx.notes['tie'] = ctx.notes.get('tie', '') + f', {len(batch)} histories, {ctx.corr["cases"]} compared queries'
     return ctx.finish()
 
 
@@ -1109,8 +1164,21 @@ def replay(path):
     return 1 if ps else 0
 
 
+def write_baseline():
+    """python harness/c19.py baseline: (re)generate the committed baseline inventory from lib.REPO"""
+    cfg, consumed = c19_caches.translate(str(lib.REPO))
+    BASELINE.mkdir(parents=True, exist_ok=True)
+    (BASELINE / 'cfg.json').write_text(json.dumps(cfg, indent=0, sort_keys=True))
+    (BASELINE / 'CacheCfg.v.txt').write_text(c19_caches.emit(json.loads(json.dumps(cfg))))
+    (BASELINE / 'sources.json').write_text(json.dumps(consumed, indent=1, sort_keys=True))
+    print('baseline inventory written to', BASELINE)
+    return 0
+
+
 if __name__ == '__main__':
     if len(sys.argv) > 2 and sys.argv[1] == 'replay':
         sys.exit(replay(sys.argv[2]))
+    if len(sys.argv) > 1 and sys.argv[1] == 'baseline':
+        sys.exit(write_baseline())
     tier = sys.argv[1] if len(sys.argv) > 1 else 'quick'
     sys.exit(main(lib.Ctx('C19', tier)))
